@@ -1,6 +1,6 @@
 """C18 - index-domain agreement in the point-cloud filters (and the other gather sites of the package)."""
 import ast
-from ..core import RuleResult, Finding, AnalysisError, dotted, src, norm_construct
+from ..core import RuleResult, Finding, AnalysisError, dotted, src, norm_construct, guarded, guarded_list
 from ..shapes import Interp, TV, IntV, NONE, TOP, sym, lit
 
 GEO = 'pypose.function.geometry'
@@ -32,6 +32,7 @@ SEEDS = [
 FLOOR_CHECKS = 8
 
 
+@guarded
 def rule_idx(repo, tier):
     res = RuleResult('C18.IDX', 'an index tensor computed over an axis of nominal extent S (topk, min/argmin, argsort, searchsorted, '
                      'randperm, unique-inverse) only indexes (gather, index_select, index_add_, x[idx]) an axis of the same extent; '
@@ -138,6 +139,7 @@ def _sign_kind(e, wd):
     return '?'
 
 
+@guarded
 def rule_sign(repo, tier):
     res = RuleResult('C18.SIGN', 'homo2cart divides the leading coordinates by a quantity that keeps the sign of the last coordinate '
                      '(protection against a zero denominator may only clamp its magnitude): points with negative homogeneous '
@@ -166,6 +168,7 @@ OPTION_NAMES = {'ord', 'dim', 'pdim', 'radius', 'largest', 'sorted', 'k'}
 FWD_MODULES = [GEO, 'pypose.module.icp']
 
 
+@guarded
 def rule_fwd(repo, tier):
     from .. import paths as _paths
     res = RuleResult('C18.FWD', 'option forwarding: when a point-cloud function that takes a norm / dimension option (ord, dim, pdim, ...) calls '
@@ -204,5 +207,13 @@ def rule_fwd(repo, tier):
     return res
 
 
+@guarded
+def rule_memo18(repo, tier):
+    from ..memo import rule_memo
+    return rule_memo(repo, 'C18.MEMO', 'the point-cloud and camera helpers are functions of their arguments: nothing computed from the contents of a point '
+                     'tensor is kept in storage that outlives the call (a cloud buffer refilled in place must be filtered by its new contents)',
+                     ['pypose.function.geometry'], floor=10)
+
+
 def rules(repo, tier):
-    return [rule_idx(repo, tier), rule_sign(repo, tier), rule_fwd(repo, tier)]
+    return [rule_idx(repo, tier), rule_sign(repo, tier), rule_fwd(repo, tier), rule_memo18(repo, tier)]
